@@ -776,6 +776,11 @@ impl SvgElement {
         match self.name.as_str() {
             "use" | "reuse" => {
                 let target_el = self.get_target_element(ctx)?;
+                if target_el.has_pending_geometry() {
+                    // registered but not resolved yet: its size is not known, wait for it
+                    // (a size of nothing would place the instance as if it were a point)
+                    return Err(SvgdxError::MissingBoundingBox(target_el.to_string()));
+                }
                 // Take a _copy_ of the target element and evaluate attributes
                 // (should really only evaluate those which contribute to size...)
                 // This allows 'reuse' attributes which appear as vars within the
